@@ -533,14 +533,23 @@ func gen(r *lib.Rand, tier, stream string, i int) History {
 	// setparams: the authority changes the asset parameters (values only: denoms and order stay).  Mostly
 	// valid sets - limits raised or cut (also below the current usage), time-based limit, period, active
 	// flag, deputy, fee, swap and lock bounds, time-limited flag -, sometimes an invalid set or a stranger.
+	removed := make([]bool, len(curP)) // assets currently absent from the stored parameters (their supply records stay)
 	setparams := func() {
-		np := append([]AssetP{}, curP...)
+		cand := append([]AssetP{}, curP...)
+		rem := append([]bool{}, removed...)
+		dup := -1
 		who := GOV
 		for n := int(r.Range(1, 3)); n > 0; n-- {
-			d := r.Intn(len(np))
-			p := &np[d]
+			d := r.Intn(len(cand))
+			p := &cand[d]
 			in, _, cr, tlc, _ := supply(d)
-			switch r.Weighted(3, 2, 2, 2, 1, 1, 2, 2, 1, 1) {
+			if rem[d] && r.Chance(2, 3) { // re-activate a removed asset (its supply record is still there)
+				rem[d] = false
+				continue
+			}
+			switch r.Weighted(3, 2, 2, 2, 1, 1, 2, 2, 1, 1, 2) {
+			case 10: // remove the asset from the parameters (open contracts on it stay)
+				rem[d] = true
 			case 0: // raise the limits
 				p.Limit += r.Range(1, 800)
 				if p.TL {
@@ -599,16 +608,25 @@ func gen(r *lib.Rand, tier, stream string, i int) History {
 				case 3:
 					p.Fee = -1
 				case 4:
-					np = append(np, np[d]) // duplicate denom
+					dup = d // duplicate denom
 				}
 			}
+		}
+		var np []AssetP
+		for d := range cand {
+			if !rem[d] {
+				np = append(np, cand[d])
+			}
+		}
+		if dup >= 0 {
+			np = append(np, cand[dup])
 		}
 		if r.Chance(1, 10) {
 			who = r.Intn(NA) // not the authority
 		}
 		res := push(Step{Kind: "setparams", Who: who, NewParams: np})
 		if res.code == 0 {
-			curP = np
+			curP, removed = cand, rem
 		}
 	}
 	anyC := func() *genC {
@@ -1056,6 +1074,7 @@ type observation struct {
 	queue       string
 	rows        [][]string
 	sups, bsups []string
+	params      string // the stored asset parameters, through the Params query
 }
 
 func (w *world) observe(code int) observation {
@@ -1132,8 +1151,29 @@ func (w *world) observe(code int) observation {
 	if t, ok := k.GetPreviousBlockTime(e.Ctx); ok {
 		prev = t.UnixNano()
 	}
+	// the stored parameters, in the model's vocabulary
+	var pstr []string
+	if resp, err := k.Params(e.Ctx, &htlctypes.QueryParamsRequest{}); err == nil {
+		for _, a := range resp.Params.AssetParams {
+			di := -9
+			for i, d := range denoms {
+				if d == a.Denom {
+					di = i
+				}
+			}
+			dep := accIndex(w, a.DeputyAddress)
+			if dep == -9 {
+				dep = -1
+			}
+			pstr = append(pstr, lib.App("mkAP", lib.Z(int64(di)), hzi(a.SupplyLimit.Limit), lib.B(a.SupplyLimit.TimeLimited),
+				hzi(a.SupplyLimit.TimeBasedLimit), hz64(int64(a.SupplyLimit.TimePeriod)), lib.B(a.Active), lib.Z(int64(dep)),
+				hzi(a.FixedFee), hzi(a.MinSwapAmount), hzi(a.MaxSwapAmount), lib.ZU(a.MinBlockLock), lib.ZU(a.MaxBlockLock)))
+		}
+	} else {
+		w.note("params query failed: %v", err)
+	}
 	return observation{code: code, height: e.Height, tm: e.Time.UnixNano(), prev: prev, cons: cons, queue: lib.L(qs...),
-		rows: rows, sups: sups, bsups: bsups}
+		rows: rows, sups: sups, bsups: bsups, params: lib.L(pstr...)}
 }
 
 func (o observation) padded(n int) []string {
@@ -1151,7 +1191,7 @@ func (o observation) full(n int) string {
 		rows = append(rows, lib.L(r...))
 	}
 	return lib.App("mkObs", lib.Z(int64(o.code)), lib.Z(o.height), hz64(o.tm), lib.L(o.padded(n)...), o.queue,
-		lib.L(rows...), lib.L(o.sups...), lib.L(o.bsups...), hz64(o.prev))
+		lib.L(rows...), lib.L(o.sups...), lib.L(o.bsups...), hz64(o.prev), o.params)
 }
 
 // diff prints the entries of o that differ from the previous observation po.
@@ -1182,8 +1222,12 @@ func (o observation) diff(po observation, n int) string {
 			bsups = append(bsups, lib.Pair(lib.Z(int64(i)), o.bsups[i]))
 		}
 	}
+	params := "None"
+	if o.params != po.params {
+		params = lib.App("Some", o.params)
+	}
 	return lib.App("mkD", lib.Z(int64(o.code)), lib.Z(o.height), hz64(o.tm), hz64(o.prev), lib.L(cons...), queue,
-		lib.L(bals...), lib.L(sups...), lib.L(bsups...))
+		lib.L(bals...), lib.L(sups...), lib.L(bsups...), params)
 }
 
 func coqParam(p AssetP) string {
